@@ -212,6 +212,21 @@ fn write_scenario(r: &mut Rng, base: Option<&Vec<u8>>) -> Vec<String> {
     calls
 }
 
+/// call sequences through the compressing encoders and the ZipCrypto layer (small contents: each encoder hands
+/// its whole output to the sink in one `write` when the entry is closed, as the model says)
+fn codec_scenario(r: &mut Rng) -> Vec<String> {
+    let mut calls = vec!["new".to_string()];
+    for i in 0..r.range(1, 3) {
+        let m = *r.pick(&[8u16, 12, 93, 0, 8]);
+        let pw = if r.chance(1, 3) { hex(b"pw") } else { "n".into() };
+        let o = format!("{m},n,{},{},n,{},{pw}", 0x21 + (r.below(100) as u16) * 512, r.below(0xbf00), r.chance(1, 6) as u8);
+        calls.push(format!("sf,{},{o}", hex(format!("c{i}").as_bytes())));
+        for _ in 0..r.below(3) { let n = r.below(60) as usize; calls.push(format!("w,{}", hex(&b"abcabcabd".repeat(n / 9 + 1)[..n]))); }
+    }
+    calls.push(if r.chance(3, 4) { "fin".into() } else { "drop".into() });
+    calls
+}
+
 fn listing(bytes: &[u8]) -> Option<String> {
     let mut a = zip::ZipArchive::new(Cursor::new(bytes.to_vec())).ok()?;
     let mut s = format!("n={} c={}", a.len(), hex(a.comment()));
@@ -266,10 +281,18 @@ impl Stream for Fault {
                     let mut c2 = c.clone(); if c2.last().unwrap() != "fin" { let n = c2.len() - 1; c2[n] = "fin".into(); }
                     super::write::run_calls(&c2, &[]).fin
                 } else { None };
-                let calls = write_scenario(&mut r, base.as_ref());
+                let codec = i % 8 == 5;
+                let calls = if codec { codec_scenario(&mut r) } else { write_scenario(&mut r, base.as_ref()) };
                 let (_, n, _, _) = run_write(&calls, None);
-                g.push("write.free", format!("fault.write calls={} k=none", calls.join(";")));
-                for k in 0..n { g.push("write.k", format!("fault.write calls={} k={k}", calls.join(";"))); }
+                // codec scenarios are judged by the oracle alone (op fault.writec): when the fault hits the encoder's
+                // final flush, flate2's / bzip2's destructor retries the write on the error path (one more I/O call,
+                // the compressed bytes reach the sink after all) - the model's `switchTo` does not describe that
+                // retry (M2, DESIGN R8); the property itself (an error is reported, or the result is identical) is
+                // checked on the implementation
+                let op = if codec { "fault.writec" } else { "fault.write" };
+                let kind = if codec { "writec" } else { "write" };
+                g.push(&format!("{kind}.free"), format!("{op} calls={} k=none", calls.join(";")));
+                for k in 0..n { g.push(&format!("{kind}.k"), format!("{op} calls={} k={k}", calls.join(";"))); }
             }
         }
         g
@@ -283,7 +306,7 @@ impl Stream for Fault {
                 let (s, n) = run_read(get_hex(&a, "bytes").unwrap_or_default(), k);
                 format!("{s} ncalls={n}")
             }
-            "fault.enc" => "oracle-only".into(),
+            "fault.enc" | "fault.writec" => "oracle-only".into(),
             "fault.write" => {
                 let calls: Vec<String> = a.get("calls").map(|c| c.split(';').map(|s| s.to_string()).collect()).unwrap_or_default();
                 if calls.is_empty() { return "bad-op".into(); }
@@ -326,9 +349,10 @@ impl Stream for Fault {
                 let r = resp.rsplit_once(" ncalls=").map(|x| x.0).unwrap_or(resp);
                 if all_ok && r != free { f.push(OracleFailure { what: format!("reader: every call succeeded under the fault but the result differs from the fault-free run: `{r}` vs `{free}`") }); }
             }
-            "fault.write" => {
+            "fault.write" | "fault.writec" => {
                 let calls: Vec<String> = a.get("calls").map(|c| c.split(';').map(|s| s.to_string()).collect()).unwrap_or_default();
-                let (_, _, fin_k, all_ok) = run_write(&calls, k);
+                let (resp_w, _, fin_k, all_ok) = run_write(&calls, k);
+                if resp_w.contains("panic") { f.push(OracleFailure { what: format!("panic under an injected I/O fault: {}", &resp_w[..resp_w.len().min(200)]) }); return f; }
                 // `drop` returns no Result (the crate documents that dropping "may silently fail"): a run counts
                 // as a success only if it contains an explicit finish()
                 let has_fin = calls.iter().any(|c| c == "fin");
